@@ -472,7 +472,8 @@ pub fn sse42_multi_search(haystack: &[u8], chars: &[u8]) -> Option<usize> {
     if chars.is_empty() {
         return None;
     }
-    if !is_x86_feature_detected!("sse4.2") {
+    // PCMPESTRI holds at most 16 set members; a larger set must not be truncated
+    if chars.len() > 16 || !is_x86_feature_detected!("sse4.2") {
         return scalar_multi_search(haystack, chars);
     }
 
